@@ -144,6 +144,31 @@ def merge_ok(pair: str, h: int, ar: int, ao: int, st: int, a: int, b: int, c: in
     return ok
 
 
+def merge_sequence(kind: int, ar: int, a: int, b: int, c: int, d: int) -> bool:
+    """Two merge_with() calls on ONE Merger equal the fold of two single merges (root arrays / root hashes)."""
+    kind, ar = realize(kind), realize(ar)
+    args = SimpleNamespace(arrays=ARRAYS[ar], config=None, mergeat="/")
+    if kind == 0:
+        l0, r1, r2 = cseq(a, b, 3), cseq(b, c), cseq(d)
+    elif kind == 1:
+        l0, r1, r2 = cmap(("l", cseq(a, b))), cmap(("l", cseq(b, c)), ("x", 1)), cmap(("l", cseq(d)), ("y", 2))
+    else:
+        l0, r1, r2 = cseq(a), cseq(), cseq(a, d)
+    pl, p1, p2 = to_plain(l0), to_plain(r1), to_plain(r2)
+    merger = Merger(LOG, l0, MergerConfig(LOG, args))
+    merger.merge_with(r1)
+    mid = to_plain(merger.data)
+    pol = {"hashes": "deep", "arrays": ARRAYS[ar], "aoh": "all", "sets": "unique"}
+    note(left=pl, first=p1, second=p2, arrays=ARRAYS[ar], after_first=mid)
+    if not judge(pl, p1, mid, pol, True):
+        return False
+    mid_copy = to_plain(merger.data)
+    merger.merge_with(r2)
+    got = to_plain(merger.data)
+    note(after_second=got)
+    return judge(mid_copy, p2, got, pol, True)
+
+
 def merge_rules(which: int, a: int, b: int, c: int, d: int) -> bool:
     """Per-path rules/keys overrides take precedence over the defaults."""
     which = realize(which)
@@ -194,6 +219,10 @@ QUICK = ["scalars", "nested", "arrays", "aoh", "aoh_strids", "clash_list_over_sc
 def shards(tier, seed):
     names = QUICK if tier == "quick" else list(PAIRS)
     out = [x for n in names for x in _mk(n)]
+    out.append(shard(PID, "sequence", "harness.c05", "merge_sequence(kind, ar, a, b, c, d)",
+                     [("kind", "int"), ("ar", "int"), ("a", "int"), ("b", "int"), ("c", "int"), ("d", "int")],
+                     ["0 <= kind <= 2 and 0 <= ar < 4", "-2 <= a <= 2 and -2 <= b <= 2 and -2 <= c <= 2 and -2 <= d <= 2"],
+                     family="sequence", budget=1200, desc="two merges into one Merger (root arrays incl. unique, hashes with arrays)"))
     out.append(shard(PID, "rules", "harness.c05", "merge_rules(which, a, b, c, d)",
                      [("which", "int"), ("a", "int"), ("b", "int"), ("c", "int"), ("d", "int")],
                      ["0 <= which <= 2", "-9 <= a <= 9 and -9 <= b <= 9 and -9 <= c <= 9 and -9 <= d <= 9"], family="rules",
